@@ -100,6 +100,7 @@ type Options struct {
 	RateLimit           bool
 	ExcludeHosts        []string
 	DiscardStatus       []int
+	IncludeHosts        []string // --include-host
 	DisableLocalDedupe  bool // --disable-local-dedupe (a WARC writer option: identical payloads are not written as revisits)
 	Tmp                 string // scratch directory (seencheck store)
 	LocalSeencheck      bool   // real LevelDB store (slow); default: crawl HQ seencheck against an in-memory fake HQ
@@ -177,6 +178,7 @@ func New(opt Options, site Site) *World {
 		UseSeencheck: !opt.NoSeencheck, DisableSeencheck: opt.NoSeencheck, UserAgent: "verif", UseHQ: !opt.LocalSeencheck && !opt.NoSeencheck,
 		WARCWriteAsync:    opt.AsyncWARC,
 		ExcludeHosts:      append([]string{"archive.org", "archive-it.org"}, opt.ExcludeHosts...),
+		IncludeHosts:      opt.IncludeHosts,
 		WARCDiscardStatus: opt.DiscardStatus, DisableLocalDedupe: opt.DisableLocalDedupe,
 		DomainsCrawl:      opt.DomainsCrawlPatterns,
 		WARCTempDir:       w.seenDir + "/temp",
